@@ -20,9 +20,6 @@ def setItemVar : SetItem → String
 def mergeClauses (s : Stmt) : List (PathPat × List SetItem × List SetItem) :=
   s.updates.filterMap fun | .merge p oc om => some (p, oc, om) | _ => none
 
-/-- C12-merge-set-not-counted: MERGE with ON CREATE SET / ON MATCH SET (their writes are not counted) -/
-def mergeSet (s : Stmt) : Bool := (mergeClauses s).any fun (_, oc, om) => !oc.isEmpty || !om.isEmpty
-
 def patternVars (p : PathPat) : List String :=
   p.start.var.toList ++ p.steps.flatMap fun (rp, np) => rp.var.toList ++ np.var.toList
 
@@ -59,13 +56,6 @@ def repeatedTarget (g : Graph) (s : Stmt) : Bool :=
     | _ => false
   hasItem && hasDupVal (touched A params g s)
 
-/-- C12-label-count-unconditional: SET / REMOVE of a label is counted whether or not it changes the node -/
-def labelCount (s : Stmt) : Bool :=
-  s.updates.any fun
-    | .set its => its.any fun | .labels .. => true | _ => false
-    | .remove its => its.any fun | .labels .. => true | _ => false
-    | _ => false
-
 /-- C12-merge-partial-pattern-reuse: relationship MERGE whose end nodes are not both bound re-uses existing
     nodes that match the node patterns instead of matching / creating the whole pattern -/
 def mergePartial (g : Graph) (s : Stmt) : Bool :=
@@ -82,8 +72,9 @@ def mergeStale (s : Stmt) : Bool :=
     let keys := p.start.props.map (·.1) ++ p.steps.flatMap fun (rp, np) => rp.props.map (·.1) ++ np.props.map (·.1)
     oc.any fun | .prop _ k _ => keys.contains k | .mapReplace .. => true | .mapMerge _ m => m.any (keys.contains ·.1) | _ => false
 
-/-- C12-set-items-reordered: inside one SET clause a map item (`x = {…}` / `x += {…}`) is written before a
-    property item on the same variable; the planner runs all property items first -/
+/-- C12-merge-set-items-reordered (what is left after fix 5723576): inside ON CREATE SET / ON MATCH SET of a MERGE a map
+    item is written before a property item on the same variable; `compile_merge_set_items` flattens the
+    subclauses into property / map / label lists -/
 def setReordered (s : Stmt) : Bool :=
   let bad (items : List SetItem) : Bool :=
     let rec go : List SetItem → Bool
@@ -94,7 +85,7 @@ def setReordered (s : Stmt) : Bool :=
           | .mapMerge x _ => rest.any fun | .prop y _ _ => x == y | _ => false
           | _ => false) || go rest
     go items
-  s.updates.any fun | .set its => bad its | .merge _ oc om => bad oc || bad om | _ => false
+  s.updates.any fun | .merge _ oc om => bad oc || bad om | _ => false
 
 /-- C12-deleted-rel-props-resurrect: the statement creates a relationship identity that was deleted earlier and
     whose property map is still stored (root cause in the storage engine: C06) -/
@@ -105,14 +96,20 @@ def relResurrect (g : Graph) (names : List String) (s : Stmt) : Bool :=
     | _ => false
   | .error _ => false
 
+/-- C12-merge-match-multiplicity: a relationship MERGE with ON MATCH SET over an undirected pattern or a graph with
+    parallel copies: the engine applies ON MATCH once per (direction, copy) it enumerates — twice for an undirected
+    self-loop, once per identity when the pattern has a relationship property map — the reference once per match -/
+def mergeMatchMult (g : Graph) (s : Stmt) : Bool :=
+  (mergeClauses s).any fun (p, _, om) =>
+    !om.isEmpty && p.steps.any fun (rp, _) => rp.dir == .both || Findings.hasParallel g
+
 def triggers (g : Graph) (names : List String) (s : Stmt) : List String :=
-  (if mergeSet s then ["C12-merge-set-not-counted"] else []) ++
   (if nullBound A params g s then ["C12-null-bound-variable-recreated"] else []) ++
   (if repeatedTarget A params g s then ["C12-writes-decided-against-snapshot"] else []) ++
-  (if labelCount s then ["C12-label-count-unconditional"] else []) ++
   (if mergePartial A params g s then ["C12-merge-partial-pattern-reuse"] else []) ++
   (if mergeStale s then ["C12-merge-stale-overlay"] else []) ++
-  (if setReordered s then ["C12-set-items-reordered"] else []) ++
+  (if mergeMatchMult g s then ["C12-merge-match-multiplicity"] else []) ++
+  (if setReordered s then ["C12-merge-set-items-reordered"] else []) ++
   (if relResurrect A params g names s then ["C12-deleted-rel-props-resurrect"] else [])
 
 end Nervus.Cy.UFindings
